@@ -182,6 +182,15 @@ func checkC01(run *rt.Run, w *World, o *SendObs, ops []Op, stop bool, stopAt tim
 		return map[string]any{"history": opsString(ops), "send": o.SendID, "type": o.Type, "cancel_at": o.CancelAt, "cancel_point": o.CancelPt,
 			"expected_traversals": describeExpected(o.Expected), "observed": describeEntries(o.Entries), "trace": o.Trace.Points()}
 	}
+	// node k+1 is invoked iff node k returned a non-nil event: no node is ever handed a nil event (such invocations
+	// carry no provenance and are in no Send's entry list; the log keeps them aside)
+	if nils := w.Log.TakeNilEvents(); len(nils) > 0 {
+		var at []string
+		for _, e := range nils {
+			at = append(at, fmt.Sprintf("%s(id %s) ctx done=%v", e.Node.Obj, e.Node.ID, e.CtxDone))
+		}
+		run.Violation("history-pattern:nil-event", fmt.Sprintf("%d node invocation(s) were handed a nil event (the previous node dropped the event): %v", len(nils), at), wit())
+	}
 	// root clauses: what the first node of a traversal receives
 	roots := map[*RecNode]bool{}
 	for _, tr := range o.Expected {
